@@ -130,9 +130,14 @@ func (st *strat) Choose(s *vsched.Sched, opts []vsched.Transition, nThread, cur 
 func (st *strat) chooseFine(s *vsched.Sched, opts []vsched.Transition, nThread, cur int) int {
 	w := st.w
 	// canonical order: current thread's options first (already), then others by id.
-	labels := make([]string, nThread)
-	costs := make([]int, nThread)
+	labels := make([]string, len(opts))
+	costs := make([]int, len(opts))
 	def := 0
+	// (FineEnv) network events offered while threads are still runnable: each is a deviation
+	for i := nThread; i < len(opts); i++ {
+		labels[i] = "env " + opts[i].Env.Key
+		costs[i] = 1
+	}
 	for i := 0; i < nThread; i++ {
 		labels[i] = opts[i].String()
 		c := 0
@@ -165,10 +170,41 @@ func (st *strat) chooseFine(s *vsched.Sched, opts []vsched.Transition, nThread, 
 			k = 0
 		}
 	}
+	if k >= nThread {
+		w.events++
+		w.logf("%s (threads still runnable)", opts[k].Env.Key)
+		return k
+	}
 	if w.keepTr {
 		w.trace = append(w.trace, "  thr "+opts[k].String())
 	}
 	return k
+}
+
+// netOptionsFine: the network transitions that are possible right now, computed without side effects (used in
+// FineEnv mode while threads of the servers are still runnable, so that two environment events can be in flight
+// inside one server at once: e.g. the acknowledgement that completes a quorum and the RPC that deposes the leader).
+func (w *World) netOptionsFine() []vsched.EnvT {
+	var out []vsched.EnvT
+	for _, m := range w.live {
+		m := m
+		switch {
+		case m.St == mDelivered && len(m.respCh) > 0 && !m.held:
+			if !(w.nodes[m.From].up && w.nodes[m.From].inc == m.FromInc) || (!w.linkOK(m.To, m.From) && !m.bypass) {
+				continue
+			}
+			out = append(out, vsched.EnvT{Key: "reply " + m.String(), Cost: 1, Do: func() {
+				if m.HandledAt == 0 {
+					m.HandledAt = w.events
+					w.mon.OnHandled(m)
+				}
+				w.reply(m)
+			}})
+		case m.St == mPending && !m.inFlight && m.To >= 0 && w.canReach(m):
+			out = append(out, vsched.EnvT{Key: "deliver " + m.String(), Cost: 1, Do: func() { w.deliver(m, false) }})
+		}
+	}
+	return out
 }
 
 // ---------------------------------------------------------------------------
@@ -197,7 +233,7 @@ func runOnce(sc *Scenario, prefix []int, prefixLabels []string, trace bool) (res
 	if debugPrefix {
 		fmt.Fprintln(os.Stderr, "RUN", prefix)
 	}
-	w := &World{sc: sc, blocked: map[[2]int]bool{}, keepTr: trace, vals: map[string]int{}, tvals: map[string]time.Duration{}, randExtra: map[int]int64{}}
+	w := &World{sc: sc, blocked: map[[2]int]bool{}, keepTr: trace, vals: map[string]int{}, tvals: map[string]time.Duration{}, randExtra: map[int]int64{}, inj: injState{iso: -1}}
 	vrand.Int63Fn = func() int64 {
 		if n := w.nodeOfCur(); n != nil {
 			if w.sc.Devs&DevRand != 0 && !w.noDevs && n.booted {
@@ -217,7 +253,13 @@ func runOnce(sc *Scenario, prefix []int, prefixLabels []string, trace bool) (res
 	w.sched = s
 	vtime.Reset()
 	s.EnvFn = func(nThread int) []vsched.EnvT {
-		if nThread > 0 || w.internalErr != "" {
+		if w.internalErr != "" {
+			return nil
+		}
+		if nThread > 0 {
+			if w.sc.Fine && w.sc.FineEnv && w.fineNow {
+				return w.netOptionsFine()
+			}
 			return nil
 		}
 		eo := w.envOptions()
